@@ -428,7 +428,7 @@ tp_task_enable(tp_task_p tptask, int enable) {
 	error = tpt_ev_enable_args1(enable, tptask->event, &tptask->tp_data);
 	if (0 != error) {
 		debugd_break();
-		tpt_ev_enable_args1(0, TP_EV_TIMER, &tptask->tp_data);
+		tpt_ev_enable_args1(0, TP_EV_TIMER, &tptask->tp_timer);
 	}
 	return (error);
 }
